@@ -58,12 +58,15 @@ PROPS = {
     },
     "C03": {
         "lean_modules": ["Props.C03"],
-        "harness": [e2e("invalid,code,mixed", 90, 3000, label="invalid-heavy")],
-        "rule": E2E_RULE,
+        "harness": [
+            e2e("invalid,code,mixed", 90, 3000, label="invalid-heavy"),
+            {"sub": "commit-gate", "quick": {"cases": 3000}, "thorough": {"cases": 100000}, "timeout": 3000},
+        ],
+        "rule": "commit-gate: (nonce check on/off, transaction nonce, committed sender nonce) with both nonces drawn from {0..5, u64::MAX-1, u64::MAX}: the real OrderedCommitter::commit on a ParallelState whose sender has that nonce (Committed / NeedsSequentialFallback) vs stock revm's validation of the same transaction on the same state (accepted / NonceTooHigh / NonceTooLow / NonceOverflow) vs the Lean nonceGate and nonceInvalid; " + E2E_RULE,
         "trusted_base": E2E_TRUST,
         "modelled": ["OrderedCommitter::commit nonce gate", "execute_sequential_suffix classification", "error branch of execute_task for invalid transactions"],
         "assumptions": ["revm's transaction validation = nonce check AND nonce-independent rest (hypothesis hdecomp of gate_equiv; exercised by the differential runs)"],
-        "explanation": "Theorems nonce_gate, gate_iff_valid, gate_equiv, replay_no_error, replay_pointwise, invalid_never_fatal on the decision logic; blocks with every invalid kind at random positions against the in-order oracle (reason values compared structurally).",
+        "explanation": "Theorems nonce_gate, gate_iff_valid (the gate passes exactly when in-order nonce validation accepts, for every transaction that can have a speculative result), nonce_max_always_invalid, nonce_check_off, gate_equiv, replay_no_error, replay_pointwise, invalid_never_fatal on the decision logic; the gate and the reason classification are compared with the real committer and with revm's validation; blocks with every invalid kind (incl. nonce overflow) at random positions against the in-order oracle (reason values compared structurally).",
     },
     "C04": {
         "lean_modules": ["Props.C04"],
